@@ -4,6 +4,7 @@ mod exec;
 mod gen;
 mod concretize;
 mod hist;
+mod cssgen;
 mod families;
 
 use serde_json::{json, Value};
